@@ -509,10 +509,30 @@ class Summary:
             elif isinstance(a, ast.AugAssign):
                 record_calls([a.value])
                 cur = sub(t.cast(ast.expr, _load(a.target)))
-                v = ast.BinOp(left=cur, op=a.op, right=sub(a.value))
+                rhs = sub(a.value)
+                if isinstance(a.op, ast.Add) and isinstance(cur, ast.List) and isinstance(rhs, (ast.List, ast.Tuple)):
+                    v: ast.expr = ast.List(elts=list(cur.elts) + list(rhs.elts), ctx=ast.Load())  # list += display
+                else:
+                    v = ast.BinOp(left=cur, op=a.op, right=rhs)
                 assign(a.target, v, a)
             elif isinstance(a, ast.Expr):
                 record_calls([a.value])
+                # a local list display grown in place: L.append(x) / L.extend([..]) / L.insert(0, x)
+                c0 = a.value
+                if isinstance(c0, ast.Call) and isinstance(c0.func, ast.Attribute) and isinstance(c0.func.value, ast.Name) and isinstance(env.get(c0.func.value.id), ast.List) and not c0.keywords:
+                    lst = t.cast(ast.List, env[c0.func.value.id])
+                    m_ = c0.func.attr
+                    new_l: t.Optional[ast.List] = None
+                    if m_ == "append" and len(c0.args) == 1:
+                        new_l = ast.List(elts=list(lst.elts) + [sub(c0.args[0])], ctx=ast.Load())
+                    elif m_ == "extend" and len(c0.args) == 1 and isinstance(sub(c0.args[0]), (ast.List, ast.Tuple)):
+                        new_l = ast.List(elts=list(lst.elts) + list(t.cast(ast.List, sub(c0.args[0])).elts), ctx=ast.Load())
+                    elif m_ == "insert" and len(c0.args) == 2 and isinstance(c0.args[0], ast.Constant) and c0.args[0].value == 0:
+                        new_l = ast.List(elts=[sub(c0.args[1])] + list(lst.elts), ctx=ast.Load())
+                    if new_l is not None:
+                        env[c0.func.value.id] = new_l
+                    elif m_ not in ("copy", "index", "count"):
+                        env[c0.func.value.id] = ast.Name(id=f"<{c0.func.value.id} after {m_}>", ctx=ast.Load())
             elif isinstance(a, ast.Return):
                 record_calls([a.value])
                 ps.exit, ps.value, ps.exit_node = "return", (sub(a.value) if a.value is not None else ast.Constant(value=None)), a
